@@ -40,8 +40,9 @@ using std::endl;
 using std::ostringstream;
 using std::stringstream;
 
-static const std::string prefix_labels[] = {"", "const ", "urgent ", "", "broadcast ", "", "urgent broadcast ",
-                                            "", "meta "};
+// indexed by ParserBuilder::PREFIX (a bit set: const 1, urgent 2, broadcast 4, meta 8, hybrid 16)
+static const std::string prefix_labels[] = {"", "const ", "urgent ", "", "broadcast ", "", "urgent broadcast ", "", "meta ",
+                                            "", "", "", "", "", "", "", "hybrid "};
 
 void PrettyPrinter::indent()
 {
